@@ -73,7 +73,7 @@ def run(ck):
               key=lambda c: {"alg": c["alg"], "len": len(c["apdu"]), "at": c["at"], "eff": c["eff"], "tpci": c["tpci"], "scf": c["scf"]},
               what=lambda c: f"SecureData output differs from the KNX CCM reference: alg={c['alg']} len={len(c['apdu'])} at={c['at']} eff={c['eff']} tpci={c['tpci']} scf={c['scf']:#x}")
     muts = []
-    for c in cases[:12]:
+    for c in [c for c in cases if c["out"]][:12]:
         m = dict(c, out=list(c["out"]))
         m["out"][-1] ^= 1
         muts.append(m)
